@@ -645,9 +645,10 @@ class CompositeDataSource(DataSource):
         if not self.has_data_sources():
             raise AttributeError("CompositeDataSource has no data sources")
 
-        results = []
-        for ds in self.data_sources:
-            results.extend(ds.related_to(*args, **kwargs))
+        # A relationship and the objects it connects may be held by different
+        # data sources, so asking each one separately isn't enough: navigate
+        # over the federated relationships()/query() instead.
+        results = super(CompositeDataSource, self).related_to(*args, **kwargs)
 
         # remove exact duplicates (where duplicates are STIX 2.0
         # objects with the same 'id' and 'modified' values)
